@@ -49,5 +49,27 @@ Resp(cs) ==
                 [] cs.layout = "job-group-decoy" -> <<[tag |-> 2, attrs |-> Decoy], [tag |-> 4, attrs |-> pa]>>]
 LibSuccess(code) == code \in {0, 1, 2}        \* what the pinned library classifies as success
 OperationalAllowed == ReadyOp(Resp(c), LibSuccess(c.status)) \in Allowed(Resp(c))
+(* ---- design mutants (self-test): each must be refuted by the declarative statement ---- *)
+ReadyMut(mode, resp, success) ==
+  IF ~(success \/ mode = "ignore-status") THEN "err"
+  ELSE LET pa == IF mode = "any-printer-group"
+                 THEN (IF \E i \in 1..Len(resp.groups) : resp.groups[i].tag = 4 /\ N_pstate \in DOMAIN resp.groups[i].attrs
+                                                          /\ resp.groups[i].attrs[N_pstate] = [k |-> "Enum", i |-> 5]
+                       THEN (N_pstate :> [k |-> "Enum", i |-> 5]) ELSE FirstPrinter(resp.groups))
+                 ELSE FirstPrinter(resp.groups)
+           stopped == N_pstate \in DOMAIN pa /\ pa[N_pstate].k = "Enum" /\ pa[N_pstate].i = 5
+           idle    == N_pstate \in DOMAIN pa /\ pa[N_pstate].k = "Enum" /\ pa[N_pstate].i = 3
+           kws     == IF N_reasons \in DOMAIN pa THEN Elems(pa[N_reasons]) ELSE <<>>
+           blocked == CASE mode = "first-reason-only" -> Len(kws) >= 1 /\ kws[1].k = "Keyword" /\ kws[1].s \in Blocking
+                        [] mode = "single-keyword-only" -> N_reasons \in DOMAIN pa /\ pa[N_reasons].k = "Keyword" /\ pa[N_reasons].s \in Blocking
+                        [] OTHER -> N_reasons \in DOMAIN pa /\ Keywords(pa[N_reasons]) \cap Blocking # {}
+       IN IF mode = "idle-shortcut" /\ idle THEN "ready"
+          ELSE IF stopped \/ blocked THEN "notready" ELSE "ready"
+Mut_FirstReasonOnly  == ReadyMut("first-reason-only", Resp(c), LibSuccess(c.status)) \in Allowed(Resp(c))
+Mut_SingleKeywordOnly == ReadyMut("single-keyword-only", Resp(c), LibSuccess(c.status)) \in Allowed(Resp(c))
+Mut_IdleShortcut     == ReadyMut("idle-shortcut", Resp(c), LibSuccess(c.status)) \in Allowed(Resp(c))
+Mut_AnyPrinterGroup  == ReadyMut("any-printer-group", Resp(c), LibSuccess(c.status)) \in Allowed(Resp(c))
+Mut_IgnoreStatus     == ReadyMut("ignore-status", Resp(c), LibSuccess(c.status)) \in Allowed(Resp(c))
+Mut_None             == ReadyMut("none", Resp(c), LibSuccess(c.status)) = ReadyOp(Resp(c), LibSuccess(c.status))   \* control: holds
 Gen == PrintT(<<"CASE", ToJson(c)>>)
 =============================================================================
